@@ -237,6 +237,12 @@ func dialRoute(
 	handshakeCtx *proto.PacketContext,
 	forceUpdatePacketContext bool,
 ) (dst net.Conn, err error) {
+	// Rewrite copies: when this backend fails after the handshake was rewritten (e.g. it accepts
+	// but does not answer a status request) the next backend must get the client's handshake
+	// rewritten once, not the rewrite of a rewrite.
+	handshakeCopy, ctxCopy := *handshake, *handshakeCtx
+	handshake, handshakeCtx = &handshakeCopy, &ctxCopy
+
 	dialCtx, cancel := context.WithTimeout(ctx, dialTimeout)
 	defer cancel()
 
